@@ -298,6 +298,8 @@ struct World
     int pick_any_track(int64_t t) const;
     int pick_any_crate(int64_t t) const;
     std::string fam() const { return family == 2 ? "v2" : (family == 1 ? "v1b" : "v1a"); }
+    // property that owns "did not return or throw a std::exception / did not terminate" verdicts in this run
+    std::string safety_owner() const { return plan.cfg.profile.compare(0, 7, "corrupt") == 0 ? "C05" : "C15"; }
 
     // --- API call bracket
     void begin_call(const FaultSpec& f);
@@ -348,6 +350,9 @@ struct World
     void exec_env_op(const Step& s);
     bool exec_table_op(const Step& s);    // table.cpp (actor T)
     bool exec_foreign_op(const Step& s);  // foreign.cpp (actor F)
+    void foreign_forget();
+    void corrupt_blob(const Step& s, int track_index);
+    void corrupt_pages(const Step& s);
     bool exec_hostile_op(const Step& s);  // hostile.cpp
     void hostile_finish(const std::string& op);
     void adopt_crate(const dj::crate& c, int64_t parent, const std::string& name);
